@@ -97,6 +97,8 @@ def gen_init(rnd, cfg=None, *, max_nodes=10, need_edges=False) -> dict:
     n = rnd.choice([0, 1, 2]) if rnd.random() < 0.08 and not need_edges else rnd.randint(3, max_nodes)
     ids = []
     cur = rnd.choice([0, 0, 0, 5, 40]) if rnd.random() < 0.5 else 0
+    if not cfg["seg"] and rnd.random() < 0.25:
+        cur = -1  # node id 0 is a valid id when there is no label image
     for _ in range(n):
         cur += rnd.choice([1, 1, 1, 2, 3, 7])
         ids.append(cur)
@@ -117,9 +119,10 @@ def gen_init(rnd, cfg=None, *, max_nodes=10, need_edges=False) -> dict:
             pool = sorted(pool, key=lambda m: (t - m["t"], m["id"]))
             parent = pool[0] if rnd.random() < 0.6 else rnd.choice(pool)
         node: dict[str, Any] = {"id": nid, "t": t, "parent": None if parent is None else parent["id"],
-                                CUSTOM_NODE: round(rnd.random() * 10, 3)}
+                                CUSTOM_NODE: 0.0 if rnd.random() < 0.2 else round(rnd.random() * 10, 3)}
         if parent is not None:
-            node[CUSTOM_EDGE] = rnd.randint(1, 9)
+            # falsy values on purpose (0): "if value:" instead of "is not None" must show
+            node[CUSTOM_EDGE] = rnd.choice([0, 0, 1, 2, 3, 5, 9])
         if cfg["seg"]:
             boxes = _place_boxes(rnd, shape, occupied[t], near=None if parent is None else parent.get("boxes"),
                                  thick=cfg["ndim"] == 4)
@@ -372,6 +375,12 @@ class World:
         value = int(op["value"])
         sp = tuple(np.asarray(a, dtype=np.int64) for a in op["pixels"])
         full = (np.full(len(sp[0]), t, dtype=np.int64), *sp)
+        sf = op.get("second_frame")
+        if sf is not None:  # stroke data spanning two time points (an invalid argument)
+            sp2 = tuple(np.asarray(a, dtype=np.int64) for a in sf["pixels"])
+            full2 = (np.full(len(sp2[0]), int(sf["time"]), dtype=np.int64), *sp2)
+            parts = (full2, full) if sf.get("first") else (full, full2)
+            full = tuple(np.concatenate([a, b]) for a, b in zip(*parts))
         old = seg[full].copy()
         changed = old != value
         out.info["changed"] = int(changed.sum())
@@ -390,8 +399,10 @@ class World:
         olds = sorted({int(v) for v in old.tolist()}, reverse=op.get("order") == "desc")
         updated = []
         for v in olds:
-            sel = old == v
-            updated.append((tuple(a[sel] for a in full), v))
+            # one group per (previous value, frame), as a per-frame label layer reports them
+            for tt in sorted({int(x) for x in full[0][old == v].tolist()}):
+                sel = (old == v) & (full[0] == tt)
+                updated.append((tuple(a[sel] for a in full), v))
         out.info["painted"] = seg.copy()
         out.info["overwritten"] = [v for v in olds if v != 0]
         out.action = ua.UserUpdateSegmentation(tr, value, updated, op["track_id"], force=op.get("force", False))
@@ -476,6 +487,26 @@ def gen_op(world: World, rnd, weights: dict, refusal_bias: float = 0.08) -> dict
             e = [_pick(rnd, nodes), max(nodes) + 2]
             if rnd.random() < 0.5:
                 e.reverse()
+        elif len(nodes) >= 2 and rnd.random() < 0.3:
+            # re-parenting inside one lineage: a target that already has a parent and an
+            # earlier source from the same connected component (forced merges that
+            # restructure a lineage, e.g. onto the sibling branch of a division)
+            g = tr.graph
+            import networkx as _nx
+
+            withp = [v for v in nodes if g.in_degree(v) > 0]
+            e = None
+            if withp:
+                v = _pick(rnd, withp)
+                comp = _nx.node_connected_component(g.to_undirected(as_view=True), v)
+                cands = sorted(u for u in comp if world.time(u) < world.time(v) and u != v)
+                leaves = [u for u in cands if g.out_degree(u) == 0]
+                pool = leaves if (leaves and rnd.random() < 0.6) else cands
+                if pool:
+                    e = [_pick(rnd, pool), v]
+            if e is None:
+                e = [_pick(rnd, nodes), _pick(rnd, nodes)]
+            return {"op": "add_edge", "edge": e, "force": rnd.random() < 0.7}
         elif len(nodes) >= 2 and rnd.random() < 0.6:
             # forward-in-time pair (more accepted edits), any pair otherwise
             u = _pick(rnd, nodes)
@@ -502,7 +533,7 @@ def gen_op(world: World, rnd, weights: dict, refusal_bias: float = 0.08) -> dict
         n = (max(nodes) + 1) if (bad and rnd.random() < 0.3) else _pick(rnd, nodes)
         r = rnd.random()
         if r < 0.55:
-            attrs = {CUSTOM_NODE: round(rnd.random() * 100, 3)}
+            attrs = {CUSTOM_NODE: 0.0 if rnd.random() < 0.2 else round(rnd.random() * 100, 3)}
         elif r < 0.7:
             attrs = {NEW_KEY: rnd.randint(0, 9)}
         else:
@@ -513,7 +544,7 @@ def gen_op(world: World, rnd, weights: dict, refusal_bias: float = 0.08) -> dict
         return {"op": "attrs", "node": n, "attrs": attrs}
     if kind == "paint":
         for _ in range(4):
-            op = _gen_paint(world, rnd)
+            op = _gen_paint(world, rnd, bad)
             if masks_defined(world, op):
                 return op
             world.excluded["shape_reference_undefined"] = world.excluded.get("shape_reference_undefined", 0) + 1
@@ -580,7 +611,7 @@ def _gen_add_node(world, rnd, bad) -> dict:
             "force": rnd.random() < 0.45}
 
 
-def _gen_paint(world, rnd) -> dict:
+def _gen_paint(world, rnd, bad=False) -> dict:
     tr = world.tracks
     seg = tr.segmentation
     t = rnd.randint(0, world.frames - 1)
@@ -620,9 +651,17 @@ def _gen_paint(world, rnd) -> dict:
         value = _pick(rnd, in_frame)
     else:
         value = _unused_node_id(world, rnd)
-    return {"op": "paint", "time": t, "pixels": [a.tolist() for a in idx], "value": int(value),
-            "track_id": _gen_track_id(world, rnd), "force": rnd.random() < 0.45,
-            "order": rnd.choice(["asc", "desc"])}
+    op = {"op": "paint", "time": t, "pixels": [a.tolist() for a in idx], "value": int(value),
+          "track_id": _gen_track_id(world, rnd), "force": rnd.random() < 0.45,
+          "order": rnd.choice(["asc", "desc"])}
+    if bad and value != 0 and world.frames > 1 and rnd.random() < 0.6:
+        # invalid argument: one update whose pixels span two time points
+        t2 = (t + 1 + rnd.randint(0, world.frames - 2)) % world.frames
+        if value not in world.nodes():  # a fresh label only (an existing label belongs to one frame)
+            m2 = box_mask(world.shape, [_rand_box(rnd, world.shape, maxlen=3, minlen=2 if world.ndim == 4 else 1)])
+            op["second_frame"] = {"time": t2, "pixels": [a.tolist() for a in np.nonzero(m2)],
+                                  "first": rnd.random() < 0.5}
+    return op
 
 
 def _gen_toggle(world, rnd, kind, bad) -> dict:
